@@ -6,7 +6,7 @@ From ID Require Export Check.C01.
 
 Inductive case :=
   | Session (c : C01.case)
-  | Probe (ns : N) (ops : list (C02.op * result)) (all : list entry) (first : rid)
+  | Probe (ns : N) (ops : list (C02.op * result)) (foreign : list entry) (all : list entry) (first : rid)
           (ranges : list (rid * rid * list entry))            (* get_range x y *)
           (parents : list (N * bytes * list entry))           (* prefixes_of (author, key) *)
           (removal : N * bytes * N * N * list entry).         (* remove_prefix_filtered author key ts<=bound -> count, content after *)
@@ -16,8 +16,9 @@ Definition check (c : case) : N :=
   | Session s =>
       let code := C01.check s in
       bit (N.testbit code 0) 1 + bit (N.testbit code 3 || negb (c_fp_ok s)) 2 + bit (N.testbit code 2) 4
-  | Probe ns ops all first ranges parents removal =>
+  | Probe ns ops foreign all first ranges parents removal =>
       let '(ok, T) := C02.run_fs ns empty_tables ops in
+      let T := fold_left (fun T e => fst (fs_put KS EHASH T e)) foreign T in
       let '(rau, rkey, rts, rcount, rafter) := removal in
       let '(T', n') := fs_remove_prefix_filtered KS T ns rau rkey (fun e => e_ts e <=? rts) in
       let m1 :=
